@@ -171,7 +171,8 @@ PROPS = {
                 "each HMAC secret / GET; every pull endpoint x every token; admin x every token); mode pause: the real reloadConfig is paused at a verif "
                 "hook between its state writes and the battery must answer, probe by probe, like an entirely-old or entirely-new process; mode body-read: "
                 "an in-flight ingress request triggers the reload from inside its body Read; mode pull-in-flight: every pull probe is authorized, then the reload is carried out (verif hook point), then its endpoint is resolved - "
-                "the answer (which names the route whose messages were handed out) must be the old or the new configuration's; mode failed: 9 kinds of bad new content (removed, directory, "
+                "the answer (which names the route whose messages were handed out) must be the old or the new configuration's; mode publish-in-flight: an Admin publish of two items to two routes, the reload arriving "
+                "from another goroutine between the validation of the two items (it may land there or wait for the request): status and number of stored messages must be the old or the new configuration's; mode failed: 9 kinds of bad new content (removed, directory, "
                 "garbage, truncated, uncompilable, unloadable secret, three restart-requiring changes) must leave every answer as an untouched process "
                 "gives it | file tier: a child process runs the real writeFileAtomic and is SIGKILLed at each hook label; the file must hold exactly the "
                 "old or the new bytes | rollback tier: management upsert/delete through the Admin API with a fault injected after the write (secret env "
